@@ -73,6 +73,31 @@ CHECKS = {
             "Random call sequences over the SYNC producer, two PDO maps, the heartbeat producer (0x1017 written locally and over the bus, NMT state changes from slave and master) and node guarding: after every call there is at most one live task per producer with exactly the expected id, payload, period and remote flag; none after stop / heartbeat time 0; no PDO task is live when disconnect() shuts the bus down.",
             "The harness never mutates PdoMap.data behind the API; period equality is exact.",
             "DESIGN.md section 4, C17"),
+    "C09": ("exploration",
+            "write-log ordering predicates on a reference PDO device with strict CiA 301 write rules + read-back comparison into a fresh node on another station + Network.subscribers inspection",
+            "Generated PDO configurations (RPDO/TPDO, PDO numbers 1..512, 11/29-bit COB-IDs, flags, all transmission types, optional sub-entries present/absent, 0..8 mapped objects, configuration taken programmatically, from the live device or from the dictionary) are saved to a device that starts enabled with another mapping and refuses out-of-order writes: the log must show invalidate first, count zeroed before entries, exact entry words, count after entries, validation last and only if enabled; a fresh node reading the device back must see the same configuration and be subscribed iff enabled.",
+            "Devices with a read-only mapping count and bit 29 of the COB-ID entry are outside the property.",
+            "DESIGN.md section 4, C09"),
+    "C15": ("exploration",
+            "producer/consumer node pairs (all four Local/Remote pairings) on a simulated bus: frame-on-wire monitor, consumer variable / timestamp / callback / unchanged-map comparison after every produced frame, RTR monitor, instrumented-condition waiter with lost-wake-up detection; PDO bit-field contracts attached as ambient monitors",
+            "Histories of assign / transmit / periodic tick / reconfigure / re-address / re-subscribe / remote request / foreign frames over generated layouts and consumer maps with distinct, colliding and disabled COB-IDs: the frame carries exactly COB-ID and data, every listening map reads the produced values with the frame's timestamp, every callback runs once, no other map changes, RTR is sent iff enabled and allowed, and a reader blocked in wait_for_reception is woken with the timestamp (None when nothing arrives).",
+            "The consumer does not write into received maps; a map with a running periodic task ignores reception by design.",
+            "DESIGN.md section 4, C15"),
+    "C18": ("exploration",
+            "real LssMaster against a reference CiA 305 slave: identity equality over single-bit, complement and random 128-bit identities, LSS wire monitor on every request, reply-fault injection (every error code, wrong specifier, dropped, duplicated, late), virtualised pacing sleeps",
+            "fast_scan must return exactly the slave's identity and leave it in configuration state (every single bit set alone / cleared alone in thorough), (False, None) without an unconfigured slave; inquire/configure/store must return the slave's answer or raise LssError for every non-zero error code, wrong specifier or silence; selective switch is confirmed only for the right identity; every request is a full 8-byte standard frame on 0x7E5 with zero reserved bytes.",
+            "canopen.lss.time is replaced by a virtual clock (pacing only); RESPONSE_TIMEOUT 0.5 ms; inline delivery.",
+            "DESIGN.md section 4, C18"),
+    "C19": ("exploration",
+            "exhaustive statusword decode against an own CiA 402 table; BaseNode402 against a reference drive state machine over SDO, event-driven PDO and ticked PDO: controlword log and state-trace predicates; operation-mode matrix over supported-mode masks",
+            "All 65536 statuswords must decode to the CiA 402 state; for all 8 x 8 (drive state, target) pairs x automatic-transition delays x extra status bits x transports a commandable target is reached within 12 controlword writes without entering OPERATION ENABLED unless the target is OE/QSA, an uncommandable one is refused with ValueError and no controlword; an unadvertised mode raises TypeError and writes nothing, an advertised one writes its CiA 402 code (SDO and RPDO).",
+            "Bounded restatement of 'finitely many steps' (12 writes); time-outs under threaded PDO transport are inconclusive unless the drive log shows the target was reached.",
+            "DESIGN.md section 4, C19"),
+    "C20": ("exploration",
+            "raw value observed behind the accessor (LocalNode.data_store / PdoMap.data, decoded by the reference codec) after every phys / desc / bits assignment through local SDO, remote SDO over the bus and PDO variables; exact rational arithmetic for the scaling predicate",
+            "For every integer type and view: phys writes with factors of several magnitudes and both signs store a nearest integer of value/factor and read back within half a step; description writes store exactly the named value and read back the description; every contiguous bit range within min(32, width) bits in five spellings (bit number, list, slice, slice with step, defined name) changes exactly those bits and reads them back.",
+            "Field values fit their field; ties may round either way.",
+            "DESIGN.md section 4, C20"),
 }
 
 NOT_BUILT_REASON = "check not built yet in this round (build in progress; see DESIGN.md section 4 for its design)"
